@@ -71,6 +71,7 @@ type Contract struct {
 	File        string
 	InlineCalls map[string]int // callee name -> unroll bound (0: callee loops need contracts)
 	AlsoModifies bool
+	DroppedInv  []string // loop invariants dropped because they no longer type-check
 	Stale       string // non-empty: the contract no longer matches the code (function gone, clause does not type-check)
 }
 
@@ -98,6 +99,7 @@ type loopInfo struct {
 	bodyPos token.Pos
 	rangeKey types.Object // range loops: the key variable (denotes hidden index + 1 in this loop's invariants)
 	rangeIdx *ssa.Alloc   // range loops: the hidden index cell
+	rangeIter ssa.Value   // string range loops: the iterator (its hidden cell is the byte position of the next rune)
 }
 
 type fnLoops struct {
@@ -126,6 +128,7 @@ type World struct {
 	instrRank   map[ssa.Instruction]int
 	typeChecks  []*TypeCheck
 	stale       []string
+	dropped     []string
 }
 
 var leafPkgs = []string{"encoding/binary", "math/bits"}
@@ -384,6 +387,14 @@ func (w *World) loopsOf(fn *ssa.Function) *fnLoops {
 		if len(structured) == len(astLoops) {
 			for i, li := range structured {
 				li.bodyPos = astLoops[i]
+				if strings.HasPrefix(li.header.Comment, "rangeiter") {
+					for _, in := range li.header.Instrs {
+						if nx, ok := in.(*ssa.Next); ok && nx.IsString {
+							li.rangeIter = nx.Iter
+							li.rangeKey = astKeys[i]
+						}
+					}
+				}
 				if strings.HasPrefix(li.header.Comment, "rangeindex") {
 					// the hidden index cell is the first cell loaded in the header
 					for _, in := range li.header.Instrs {
@@ -733,6 +744,14 @@ func (w *World) elaborate(c *Contract) error {
 			}
 			cl, err := mk(text)
 			if err != nil {
+				if rc.kw == "invariant" || rc.kw == "decreases" {
+					// a loop invariant that no longer type-checks (e.g. it names a local that was removed) is
+					// dropped: a weaker loop contract is sound, and the function's pre/postconditions - stated
+					// over parameters and results only - still decide
+					w.dropped = append(w.dropped, err.Error())
+					c.DroppedInv = append(c.DroppedInv, err.Error())
+					continue
+				}
 				return err
 			}
 			cl.Uses = uses
@@ -917,6 +936,11 @@ func desugar(text string, fn *ssa.Function, pkg *types.Package) (string, error) 
 	// old( -> verif_old(
 	var b strings.Builder
 	for i := 0; i < len(s); {
+		if strings.HasPrefix(s[i:], "loopold(") && (i == 0 || !isIdentChar(s[i-1]) && s[i-1] != '.') {
+			b.WriteString("verif_loopold(")
+			i += 8
+			continue
+		}
 		if strings.HasPrefix(s[i:], "old(") && (i == 0 || !isIdentChar(s[i-1]) && s[i-1] != '.') {
 			b.WriteString("verif_old(")
 			i += 4
@@ -1225,4 +1249,51 @@ func (w *World) checkTypes(prop string) []*Obligation {
 		}
 	}
 	return out
+}
+
+// constArrayInit recovers the initial contents of a package-level array variable whose initialiser is a composite
+// literal of constants: init builds it in a local array (stores of constants at constant indices) and copies it
+// into the global. Returns index -> constant, and whether the pattern was recognised.
+func (w *World) constArrayInit(g *ssa.Global) (map[int64]*ssa.Const, bool) {
+	init := g.Pkg.Func("init")
+	if init == nil {
+		return nil, false
+	}
+	for _, b := range init.Blocks {
+		for _, in := range b.Instrs {
+			st, ok := in.(*ssa.Store)
+			if !ok || st.Addr != ssa.Value(g) {
+				continue
+			}
+			ld, ok := st.Val.(*ssa.UnOp)
+			if !ok || ld.Op != token.MUL {
+				return nil, false
+			}
+			al, ok := ld.X.(*ssa.Alloc)
+			if !ok {
+				return nil, false
+			}
+			out := map[int64]*ssa.Const{}
+			for _, b2 := range init.Blocks {
+				for _, in2 := range b2.Instrs {
+					st2, ok := in2.(*ssa.Store)
+					if !ok {
+						continue
+					}
+					ia, ok := st2.Addr.(*ssa.IndexAddr)
+					if !ok || ia.X != ssa.Value(al) {
+						continue
+					}
+					k, ok1 := ia.Index.(*ssa.Const)
+					v, ok2 := st2.Val.(*ssa.Const)
+					if !ok1 || !ok2 {
+						return nil, false
+					}
+					out[k.Int64()] = v
+				}
+			}
+			return out, true
+		}
+	}
+	return nil, false
 }
